@@ -367,3 +367,33 @@ impl ResponseCookies {
         ensures cookies_view(final(self)) == cookies_view(old(self)).push(c)
     { unimplemented!() }
 }
+
+// ---- the typed wrappers: serde conversions around the raw operations ---------------------------------
+/// serde::Serialize / DeserializeOwned for the values users store: conversion to/from serde_json::Value as
+/// uninterpreted functions (serde_json::to_value / from_value)
+pub trait Serialize: Sized { spec fn to_value_spec(&self) -> Option<Value>; }
+pub trait DeserializeOwned: Sized { spec fn from_value_spec(v: Value) -> Option<Self>; }
+impl Clone for Value { #[verifier::external_body] fn clone(&self) -> (r: Self) ensures r == *self { unimplemented!() } }
+pub mod serde_json_values {
+    use super::*;
+    #[verifier::external_body]
+    pub fn to_value<T: Serialize>(t: T) -> (r: Result<Value, SerdeJsonError>)
+        ensures match r { Ok(v) => t.to_value_spec() == Some(v), Err(_) => t.to_value_spec() is None }
+    { unimplemented!() }
+    #[verifier::external_body]
+    pub fn from_value<T: DeserializeOwned>(v: Value) -> (r: Result<T, SerdeJsonError>)
+        ensures match r { Ok(t) => T::from_value_spec(v) == Some(t), Err(_) => T::from_value_spec(v) is None }
+    { unimplemented!() }
+}
+/// String -> Cow<'static, str>
+pub uninterp spec fn cow_of_string(s: String) -> CowStr;
+pub broadcast axiom fn cow_of_string_text(s: String) ensures #[trigger] cow_of_string(s)@ == s@;
+impl FromSpecImpl<String> for CowStr { open spec fn obeys_from_spec() -> bool { true } open spec fn from_spec(s: String) -> Self { cow_of_string(s) } }
+impl From<String> for CowStr { #[verifier::external_body] fn from(s: String) -> (r: Self) { unimplemented!() } }
+/// Option<Result<T, E>>::transpose
+pub assume_specification<T, E>[Option::<Result<T, E>>::transpose](o: Option<Result<T, E>>) -> (r: Result<Option<T>, E>)
+    ensures r == (match o { Some(Ok(t)) => Ok::<Option<T>, E>(Some(t)), Some(Err(e)) => Err::<Option<T>, E>(e), None => Ok::<Option<T>, E>(None) });
+/// std: `impl<T> From<T> for T` (hence `Into<T> for T`) is the identity — stated for the key type, which `Session::insert`
+/// converts once and then passes, already converted, to `insert_raw`.
+pub axiom fn reflexive_into_cowstr(k: CowStr)
+    ensures <CowStr as IntoSpec<CowStr>>::obeys_into_spec(), IntoSpec::<CowStr>::into_spec(k) == k;
